@@ -664,12 +664,20 @@ static std::string op_xlate(const toks_t& t)
 }
 
 // rawptr <tainted|tvol|accept> <addr>   (C02 run-time half)
+// a refused request is reported together with what the target holds afterwards (the refusal surfaces as an
+// exception in this configuration: a raw address must not have been stored by then)
+static bool is_harness_error(const std::runtime_error& e) { return std::strncmp(e.what(), "HARNESS", 7) == 0; }
 static std::string op_rawptr(const toks_t& t)
 {
   uintptr_t a = parse_u64(t[2]);
   if (t[1] == "tainted") {
     tainted_v<char*> p = nullptr;
-    p.assign_raw_pointer(sbA, reinterpret_cast<char*>(a));
+    try {
+      p.assign_raw_pointer(sbA, reinterpret_cast<char*>(a));
+    } catch (const std::runtime_error& e) {
+      if (is_harness_error(e)) throw;
+      return "ABORT held=" + addr_s((const void*)p.UNSAFE_unverified());
+    }
     return "OK " + addr_s((const void*)p.UNSAFE_unverified());
   }
   if (t[1] == "accept") {
@@ -679,7 +687,14 @@ static std::string op_rawptr(const toks_t& t)
   auto pp = sbA.malloc_in_sandbox<char*>();
   auto cell = reinterpret_cast<uintptr_t>(pp.UNSAFE_unverified());
   std::memset(reinterpret_cast<void*>(cell), 0xAB, 16);
-  (*pp).assign_raw_pointer(sbA, reinterpret_cast<char*>(a));
+  rep_t before; std::memcpy(&before, reinterpret_cast<void*>(cell), sizeof(before));
+  try {
+    (*pp).assign_raw_pointer(sbA, reinterpret_cast<char*>(a));
+  } catch (const std::runtime_error& e) {
+    if (is_harness_error(e)) throw;
+    rep_t after; std::memcpy(&after, reinterpret_cast<void*>(cell), sizeof(after));
+    return std::string("ABORT held=") + (after == before ? "unchanged" : std::to_string(after));
+  }
   rep_t rep; std::memcpy(&rep, reinterpret_cast<void*>(cell), sizeof(rep));
   return "OK " + std::to_string(rep);
 }
